@@ -334,4 +334,9 @@ def r5(ctx):
         ctx.check(not bad, "C05.R5", "connection:ConnectionBase._send_type", "every _send_type call passes a concrete packet type", "no message is queued as UNKNOWN", witness=bad)
 
 
-RULES = [("C05.R1", r1), ("C05.R2", r2), ("C05.R3", r3), ("C05.R4", r4), ("C05.R5", r5)]
+def r6(ctx):
+    from .common import enum_identity
+    enum_identity(ctx, "C05.R6", ("connection", "client"))
+
+
+RULES = [("C05.R6", r6), ("C05.R1", r1), ("C05.R2", r2), ("C05.R3", r3), ("C05.R4", r4), ("C05.R5", r5)]
